@@ -762,6 +762,13 @@ def run(ctx):
                 # a catch-all scheme's "hash" is as long as the password: one of 1100 characters
                 small.append({"part": "ctx", "context": cname, "scheme": name, "settings": None, "ctxkw": cks[0], "password": "L" * 1100,
                               "via": "context", "seed": ctx.seed, "n": 7})
+            if name in HS.PLAINTEXT:
+                # ... and the longest ones the library takes: 4096 characters (a prefix wrapper's stored value is then
+                # LONGER than any password), and 3000 two-byte characters (6000 bytes when the store hands it over as bytes)
+                for n_, p_ in ((8, "M" * 4096), (10, "\u00e9" * 3000)):
+                    if HS.admissible(name, p_, cks[0]):
+                        small.append({"part": "ctx", "context": cname, "scheme": name, "settings": None, "ctxkw": cks[0], "password": p_,
+                                      "via": "context", "seed": ctx.seed, "n": n_, "wrongs": False})
             if not ctx.quick:
                 # thorough: also at the production cost the context configures (one password, no wrong-password probes)
                 small.append({"part": "ctx", "context": cname, "scheme": name, "settings": None, "ctxkw": cks[0], "password": PASSWORDS[0],
